@@ -14,6 +14,17 @@
     fam <P> reasm run <chunk,chunk,…>     -> frames `fid:hex` joined by `,`   (Reasm.run (codec P))
     fam <P> reasm scan <hex>
     fam <P> recv handle <hex>             -> ignored | fired <cb> <hex> | raised <err>   (recvHandleWith (codec P))
+  the library's builders with this codec (`Generic.lean`: payload from the message codecs, framing from the codec):
+    fam <P> reqstart <0|1> | reqcmninfo | reqchinfo <chan>
+    fam <P> reqen s <chmax> <chan> <0|1>  | reqen v <chmax> <bits>         (Parser.frame_enable, tuple / list form)
+    fam <P> reqdiv s <chmax> <chan> <div> | reqdiv v <chmax> <d,d,…>       (Parser.frame_div)
+    fam <P> ackenc <r> | cmnenc <chmax> <flags> <rxpadding> | chienc <en> <type> <vdim> <div> <mlen> <name hex>
+    fam <P> streamenc <user> <samples>    -> ok <hex> | ok none | err <name>    (ParseRecv.frame_stream_encode)
+  <P> may be `serial` (the built-in codec, through the same generic definitions), and may carry a fourth part
+  `;impl=<letters>` naming how the harness realises the member in Python (s: as a subclass of another concrete
+  codec class; e / E: some / all rejections reported with the generic EParseError.ERR).  The model of the
+  member is the same; with e / E the error KIND of `decode` / `hdr` is printed as `REJ` on both sides (the
+  interface laws are about success / failure, not about which error code a codec picks).
 -/
 import NxsModel.Info
 import NxsModel.Gen.Fmt
@@ -21,6 +32,8 @@ import NxsModel.Driver.Basic
 import NxsModel.Driver.Reasm
 import NxsModel.Family
 import NxsModel.Dispatch
+import NxsModel.Generic
+import NxsModel.Driver.Stream
 namespace Nxs.Driver
 open Nxs
 
@@ -56,21 +69,28 @@ def famFoot (s : String) : Option Family.Foot :=
   else none
 
 /-- parse the textual codec description; `none` unless well-formed and `valid` -/
-def famParams (s : String) : Option Family.Params :=
+def famParams3 (a b c : String) : Option Family.Params :=
+  match a.splitOn "=", b.splitOn "=", c.splitOn "=" with
+  | ["sof", x], ["hdr", y], ["foot", z] => do
+    let sof ← match Bytes.ofHexChars x.toList with
+      | some [v] => some v
+      | _ => none
+    let fields ← match y.splitOn "," with
+      | "S" :: fs => fs.mapM famField
+      | _ => none
+    let foot ← famFoot z
+    let p : Family.Params := ⟨sof, fields, foot⟩
+    if p.valid then some p else none
+  | _, _, _ => none
+
+/-- (member, error kinds are canonicalised) -/
+def famParams (s : String) : Option (Family.Params × Bool) :=
   match s.splitOn ";" with
-  | [a, b, c] =>
-    match a.splitOn "=", b.splitOn "=", c.splitOn "=" with
-    | ["sof", x], ["hdr", y], ["foot", z] => do
-      let sof ← match Bytes.ofHexChars x.toList with
-        | some [v] => some v
-        | _ => none
-      let fields ← match y.splitOn "," with
-        | "S" :: fs => fs.mapM famField
-        | _ => none
-      let foot ← famFoot z
-      let p : Family.Params := ⟨sof, fields, foot⟩
-      if p.valid then some p else none
-    | _, _, _ => none
+  | [a, b, c] => (famParams3 a b c).map fun p => (p, false)
+  | [a, b, c, d] =>
+    match d.splitOn "=" with
+    | ["impl", fl] => (famParams3 a b c).map fun p => (p, fl.toList.any fun ch => ch = 'e' ∨ ch = 'E')
+    | _ => none
   | _ => none
 
 def dispStr : Dispatch.Disp → String
@@ -78,48 +98,83 @@ def dispStr : Dispatch.Disp → String
   | .fired cb p => s!"fired {Dispatch.cbName cb} {p.hex}"
   | .raised e => s!"raised {e.name}"
 
-def famCodecOp (p : Family.Params) : List String → Option String
-  | ["info"] => some s!"ok {Family.hdrLen p} {p.foot.len}"
+/-- `err <kind>`, or `err REJ` when the Python realisation is free in its choice of the error code -/
+def showDec (canon : Bool) (f : α → String) : Except Err α → String
+  | .ok a => "ok " ++ f a
+  | .error e => if canon then "err REJ" else "err " ++ e.name
+
+def famBitsArg (s : String) : Option (List Bool) :=
+  if s = "-" then some [] else s.toList.mapM fun ch => if ch = '1' then some true else if ch = '0' then some false else none
+
+def famIntsArg (s : String) : Option (List Int) :=
+  if s = "-" then some [] else (s.splitOn ",").mapM (·.toInt?)
+
+/-- the ops of one codec; everything goes through the fields of `c` and the generic builders -/
+def codecOp (c : Codec) (canon : Bool) : List String → Option String
+  | ["info"] => some s!"ok {c.hdrLen} {c.footLen}"
   | ["create", fid, pl] => do
     let f ← natArg fid
     let d ← if pl = "none" then some none else (hexArg pl).map some
-    pure (showExcept Bytes.hex (Family.frameCreate p f d))
+    pure (showExcept Bytes.hex (c.frameCreate f d))
   | ["decode", h] => do
     let d ← hexArg h
-    pure (showExcept (fun fr => s!"{fr.fid} {fr.data.hex}") (Family.frameDecode p d))
+    pure (showDec canon (fun fr => s!"{fr.fid} {fr.data.hex}") (c.frameDecode d))
   | ["hdr", h] => do
     let d ← hexArg h
-    pure (showExcept (fun x => s!"{x.fid} {x.flen}") (Family.hdrDecode p d))
+    pure (showDec canon (fun x => s!"{x.fid} {x.flen}") (c.hdrDecode d))
   | ["foot", h] => do
     let d ← hexArg h
-    pure s!"ok {boolStr (Family.footValidate p d)}"
+    pure s!"ok {boolStr (c.footValidate d)}"
   | ["find", h] => do
     let d ← hexArg h
-    pure (match (Family.codec p).hdrFind d with | some i => s!"ok {i}" | none => "ok -1")
-  -- builders of the device side (ParseRecv) and of the client (Parser) with this codec: payload from the
-  -- message codecs, framing from the family member
-  | ["ackenc", r] => do
-    let r ← intArg r
-    pure (showExcept Bytes.hex ((Info.ackData r).bind fun b => Family.frameCreate p Gen.Ids.idACK (some b)))
-  | ["cmnenc", a, b, c] => do
-    let a ← intArg a; let b ← intArg b; let c ← intArg c
-    pure (showExcept Bytes.hex ((Info.cmninfoData a b c).bind fun x => Family.frameCreate p Gen.Ids.idCMNINFO (some x)))
+    pure (match c.hdrFind d with | some i => s!"ok {i}" | none => "ok -1")
+  -- client side: Parser(frame=cls)
   | ["reqstart", b] => do
     let b ← natArg b
-    pure (showExcept Bytes.hex ((pack Gen.Fmt.start [.bool (b ≠ 0)]).bind fun x => Family.frameCreate p Gen.Ids.idSTART (some x)))
-  | ["reqchinfo", c] => do
-    let c ← intArg c
-    pure (showExcept Bytes.hex ((pack Gen.Fmt.chinfoReq [.int c]).bind fun x => Family.frameCreate p Gen.Ids.idCHINFO (some x)))
-  | "reasm" :: rest => reasmOpWith (Family.codec p) rest
+    pure (showExcept Bytes.hex (Generic.frameStart c (b ≠ 0)))
+  | ["reqcmninfo"] => pure (showExcept Bytes.hex (Generic.frameCmninfo c))
+  | ["reqchinfo", ch] => do
+    let ch ← intArg ch
+    pure (showExcept Bytes.hex (Generic.frameChinfo c ch))
+  | ["reqen", "s", n, ch, v] => do
+    let n ← natArg n; let ch ← intArg ch; let v ← natArg v
+    pure (showExcept Bytes.hex (Generic.frameEnable c (.single ch (v ≠ 0)) n))
+  | ["reqen", "v", n, bits] => do
+    let n ← natArg n; let vs ← famBitsArg bits
+    pure (showExcept Bytes.hex (Generic.frameEnable c (.vec vs) n))
+  | ["reqdiv", "s", n, ch, v] => do
+    let n ← natArg n; let ch ← intArg ch; let v ← intArg v
+    pure (showExcept Bytes.hex (Generic.frameDiv c (.single ch v) n))
+  | ["reqdiv", "v", n, ds] => do
+    let n ← natArg n; let vs ← famIntsArg ds
+    pure (showExcept Bytes.hex (Generic.frameDiv c (.vec vs) n))
+  -- device side: ParseRecv(cb, frame=cls)
+  | ["ackenc", r] => do
+    let r ← intArg r
+    pure (showExcept Bytes.hex (Generic.ackEncode c r))
+  | ["cmnenc", a, b, x] => do
+    let a ← intArg a; let b ← intArg b; let x ← intArg x
+    pure (showExcept Bytes.hex (Generic.cmninfoEncode c a b x))
+  | ["chienc", en, ty, vdim, div, mlen, name] => do
+    let en ← natArg en; let ty ← intArg ty; let vdim ← intArg vdim; let div ← intArg div; let mlen ← intArg mlen
+    let name ← hexArg name
+    pure (showExcept Bytes.hex (Generic.chinfoEncode c ⟨en ≠ 0, ty, vdim, div, mlen, name⟩))
+  | ["streamenc", user, samples] => do
+    let u ← userArg user; let ss ← samplesArg samples
+    pure (showExcept (fun o => match o with
+      | none => "none"
+      | some b => b.hex) (Generic.frameStreamEncode c u ss))
+  | "reasm" :: rest => reasmOpWith c rest
   | ["recv", "handle", h] => do
     let d ← hexArg h
-    pure (dispStr (Dispatch.recvHandleWith (Family.codec p) d))
+    pure (dispStr (Dispatch.recvHandleWith c d))
   | _ => none
 
 def famOp : List String → Option String
+  | "serial" :: rest => codecOp Serial.codec false rest
   | ps :: rest => do
-    let p ← famParams ps
-    famCodecOp p rest
+    let (p, canon) ← famParams ps
+    codecOp (Family.codec p) canon rest
   | _ => none
 
 end Nxs.Driver
